@@ -128,6 +128,8 @@ enum Fault {
     BodyErrorAt(usize),
     DropAfterPolls(usize),
     BadChecksum(&'static str),
+    /// the correct checksum of the whole body in the header: the upload must succeed however the body is framed
+    GoodChecksum(&'static str),
     ChunkSignature(usize),
 }
 
@@ -163,6 +165,9 @@ fn judge(c: &mut Case<'_>, st: &Stage, before: &Snapshot, attempt: &Attempt, new
     let got = read_back(st);
     let succeeded = attempt.response.as_ref().is_some_and(|r| r.as_ref().is_ok_and(|w| w.status < 300));
     c.set_sample(|| json!({"fault": fault_name, "previous_present": st.previous.is_some(), "new_len": new_content.len(), "reported_success": succeeded, "polls": attempt.polls, "status": attempt.response.as_ref().and_then(|r| r.as_ref().ok().map(|w| w.status)), "read_back_len": got.as_ref().map(Vec::len)}));
+    if fault_name.starts_with("good-checksum") && !succeeded {
+        return Err(c.fail(fault_sig, format!("{fault_name}: an upload of {} bytes carrying its correct checksum was not accepted: {:?}", new_content.len(), attempt.response.as_ref().map(|r| r.as_ref().map(|w| (w.status, crate::engine::truncate(&w.body_text(), 200)))))));
+    }
     if succeeded {
         if got.as_deref() != Some(new_content) {
             return Err(c.fail(format!("successful-write-not-visible:{fault_name}"), format!("write reported success but the object reads back as {:?} bytes (expected {})", got.map(|g| g.len()), new_content.len())));
@@ -199,6 +204,28 @@ fn judge(c: &mut Case<'_>, st: &Stage, before: &Snapshot, attempt: &Attempt, new
     Ok(())
 }
 
+/// CRC-32C (Castagnoli), bit by bit
+fn crc32c(data: &[u8]) -> u32 {
+    let mut crc = !0u32;
+    for &b in data {
+        crc ^= u32::from(b);
+        for _ in 0..8 {
+            crc = if crc & 1 == 1 { (crc >> 1) ^ 0x82F6_3B78 } else { crc >> 1 };
+        }
+    }
+    !crc
+}
+
+fn checksum_b64(alg: &str, data: &[u8]) -> String {
+    use sha1::Digest as _;
+    match alg {
+        "crc32" => b64(&crc32fast::hash(data).to_be_bytes()),
+        "crc32c" => b64(&crc32c(data).to_be_bytes()),
+        "sha1" => b64(&sha1::Sha1::digest(data)),
+        _ => b64(&sha2::Sha256::digest(data)),
+    }
+}
+
 fn b64(x: &[u8]) -> String {
     base64::engine::general_purpose::STANDARD.encode(x)
 }
@@ -227,6 +254,10 @@ fn single_writer(c: &mut Case<'_>, present: bool, n_frames: usize, fault: Fault)
             };
             headers.push((format!("x-amz-checksum-{alg}"), wrong));
             (format!("bad-checksum:{alg}"), "bad-digest-after-rename".into())
+        }
+        Fault::GoodChecksum(alg) => {
+            headers.push((format!("x-amz-checksum-{alg}"), checksum_b64(alg, &content)));
+            (format!("good-checksum:{alg}"), "valid-checksum-refused".into())
         }
         Fault::ChunkSignature(_) => unreachable!(),
     };
@@ -432,7 +463,7 @@ fn concurrent_burst(c: &mut Case<'_>) -> CaseResult {
 }
 
 pub fn run(r: &mut Runner) {
-    r.rule = "uploads of 1..8 frames x previous state {absent, present} x fault {none, body error at every frame k, request future dropped after every number of polls p up to completion, wrong checksum for each algorithm the backend checks, corrupted chunk signature in chunk k of a chunk-signed upload, a key that cannot be committed because it names an existing directory or lies below an existing object (alone and abandoned after every number of polls)}, each on its own runtime which is dropped to let the blocking pool quiesce; then GET must return the previous content (or nothing) unless the upload was reported successful, and the directory tree must equal the snapshot taken before. Concurrent writers (2..8, distinct contents) interleaved by harness-owned Pending schedules on a current-thread runtime, and on a multi-thread runtime (also in bursts of 120 rounds of barrier-released writers on 8 worker threads): final content is exactly one successful writer's bytes, no extra file. Non-trivial: any fault or >=2 writers; distinct by (fault, position, previous state, frame count).".into();
+    r.rule = "uploads of 1..8 frames x previous state {absent, present} x fault {none, body error at every frame k, request future dropped after every number of polls p up to completion, wrong checksum for each algorithm the backend checks (and the correct one, which must be accepted under any framing), corrupted chunk signature in chunk k of a chunk-signed upload, a key that cannot be committed because it names an existing directory or lies below an existing object (alone and abandoned after every number of polls)}, each on its own runtime which is dropped to let the blocking pool quiesce; then GET must return the previous content (or nothing) unless the upload was reported successful, and the directory tree must equal the snapshot taken before. Concurrent writers (2..8, distinct contents) interleaved by harness-owned Pending schedules on a current-thread runtime, and on a multi-thread runtime (also in bursts of 120 rounds of barrier-released writers on 8 worker threads): final content is exactly one successful writer's bytes, no extra file. Non-trivial: any fault or >=2 writers; distinct by (fault, position, previous state, frame count).".into();
     r.assumptions = vec![
         "dropping a tokio runtime waits for blocking-pool work that has already started".into(),
         "true-parallel interleavings inside the kernel / blocking pool are sampled, not owned, in the multi-thread mode".into(),
@@ -464,6 +495,10 @@ pub fn run(r: &mut Runner) {
     });
     r.exhaustive("path-conflict", 2 * 3, |idx, c| conflict_writer(c, (idx % 2) as usize, 1 + (idx / 2) as usize, None));
     r.exhaustive("path-conflict-drop-after-every-poll", 2 * max_polls, |idx, c| conflict_writer(c, (idx % 2) as usize, 2, Some((idx / 2) as usize)));
+    r.exhaustive("good-checksum-every-algorithm", 4 * 4, |idx, c| {
+        let alg = ["crc32", "crc32c", "sha1", "sha256"][(idx / 4) as usize];
+        single_writer(c, idx % 2 == 1, 1 + ((idx / 2) % 2) as usize * 3, Fault::GoodChecksum(alg))
+    });
     r.exhaustive("bad-checksum-every-algorithm", 4 * 2, |idx, c| {
         let alg = ["crc32", "crc32c", "sha1", "sha256"][(idx / 2) as usize];
         single_writer(c, idx % 2 == 1, 2, Fault::BadChecksum(alg))
@@ -477,10 +512,11 @@ pub fn run(r: &mut Runner) {
     r.search("random-faults", r.scale(300, 10_000), 64, |c| {
         let present = c.t.bool();
         let n = 1 + c.t.below(8);
-        let fault = match c.t.below(4) {
+        let fault = match c.t.below(5) {
             0 => Fault::BodyErrorAt(c.t.below(n)),
             1 => Fault::DropAfterPolls(c.t.below(60)),
             2 => Fault::BadChecksum(*c.t.pick(&["crc32", "crc32c", "sha1", "sha256"])),
+            3 => Fault::GoodChecksum(*c.t.pick(&["crc32", "crc32c", "sha1", "sha256"])),
             _ => Fault::None,
         };
         single_writer(c, present, n, fault)
